@@ -1,7 +1,7 @@
 #!/bin/sh
 # Run every registered quick check once against /repo, sequentially (they share build caches); prints one line per property.
 cd "$(dirname "$0")/.."
-for p in C19 C20 C14 C16 C11 C08 C09 C15 C13 C07 C01 C02 C03 C17 C04; do
+for p in C19 C20 C14 C16 C08 C09 C11 C01 C02 C03 C07 C13 C17 C15 C04; do
   s=$(date +%s)
   ./check $p --tier quick > logs/final.$p.out 2> logs/final.$p.err
   rc=$?
